@@ -125,10 +125,19 @@ def ref_objs(prop):
     return outs
 
 
+def prop_cxxflags(prop, cfg):
+    """flags the property adds to the check TU; a configuration marked -DVP_DEFAULT_FP keeps the compiler's own floating-point
+    defaults (no -frounding-math, no -ffp-contract=off): what a user's build looks like"""
+    fl = list(prop.get("cxxflags", []))
+    if "-DVP_DEFAULT_FP" in cfg.extra:
+        fl = [f for f in fl if f not in ("-frounding-math", "-ffp-contract=off")]
+    return fl
+
+
 def build_binary(prop, cfg):
     """Build the (property, configuration) binary from the current tree. Returns (path|None, log)."""
     src = os.path.join(HARNESS, "checks", prop["source"])
-    flags = cfg.flags() + list(prop.get("cxxflags", []))
+    flags = cfg.flags() + prop_cxxflags(prop, cfg)
     o, err = compile_obj(src, flags, cfg.cxx)
     if o is None:
         return None, err
